@@ -147,8 +147,8 @@ impl Decimal256 {
 
 //%fn packages/bignumber/src/math.rs | impl fmt::Display for Decimal256 | fmt
 //%%rewrite #1 /write!\(f, "\{\}", whole\)/ => f.write_str(&whole.to_string()) ## write!(f, "{}", x) with x: U256 = the Display text of x written to f
-//%%rewrite #1 /"0"\.repeat\(18 - fractional_string\.len\(\)\) \+ &fractional_string/ => vconcat("0".repeat(18 - vlen_str(&fractional_string)), &fractional_string) ## String + &str and str::len -> assumed helpers (std)
-//%%rewrite #? /fractional_string\.trim_end_matches\('0'\)/ => vtrim_end_matches(&fractional_string, '0') ## str::trim_end_matches(char) -> assumed helper (std)
+//%%rewrite #1 /"0"\.repeat\(18 - (\w+)\.len\(\)\) \+ &(\w+)/ => vconcat("0".repeat(18 - vlen_str(&\1)), &\2) ## String + &str and str::len -> assumed helpers (std)
+//%%rewrite #? /(\w+)\.trim_end_matches\('0'\)/ => vtrim_end_matches(&\1, '0') ## str::trim_end_matches(char) -> assumed helper (std)
 //%%sig
     ensures
 //%if A
@@ -161,10 +161,9 @@ impl Decimal256 {
 //%%insert before #1 /^            Ok\(\(\)\)$/
             proof {
                 assert("0"@ =~= seq!['0']);
-                assert(fractional_string@ =~= pad18(fractional.v()));
                 /*[C18 dec.render.witness]*/ assert(f.out@ =~= old(f).out@ + render_dec(self.0.v()));
             }
-//%%insert before #1 /let fractional_string = fractional\.to_string\(\);/
+//%%insert before #1 /let \w+ = fractional\.to_string\(\);/
             proof { lemma_dd_pow(); lemma_digits_props(fractional.v()); lemma_digits_len(fractional.v(), 18); }
 //%end
 }
